@@ -321,6 +321,7 @@ def handle (j : Json) : P Json := do
       | "readInputs" => pure (Heap.OpSpec.readInputs i)
       | "readHash" => pure (Heap.OpSpec.readHash i)
       | "addNode" => pure (Heap.OpSpec.addNode i (← nat (← field o "j")))
+      | "addNone" => pure (Heap.OpSpec.addNone i)
       | s => throw s!"bad heap op {s}") (← field j "ops")
     let rec encObs : Heap.Obs → Json
       | .bad => .str "BAD"
